@@ -31,7 +31,7 @@ VIEW_FNS = re.compile(
 BITVEC_INDEX = re.compile(
     r"^bitvec::(slice|vec|array)::ops::<impl std::ops::Index(Mut)?<std::ops::(Range|RangeTo|RangeFrom|RangeFull|RangeInclusive|RangeToInclusive)(<usize>)?> for bitvec::(slice::BitSlice|vec::BitVec|array::BitArray)(<[^>]*>)?>::index(_mut)?$")
 SEQ_INDEX = re.compile(
-    r"^seq::index::<impl std::ops::Index<(std::ops::(Range|RangeTo|RangeFrom|RangeFull|RangeInclusive|RangeToInclusive)(<usize>)?|usize)> for seq::slice::SeqSlice<[^<>]*>>::index$")
+    r"^<seq::slice::SeqSlice<[^<>]*> as std::ops::Index<(std::ops::(Range|RangeTo|RangeFrom|RangeFull|RangeInclusive|RangeToInclusive)(<usize>)?|usize)>>::index$")
 SEQ_LEN = re.compile(r"^seq::slice::SeqSlice::<[^<>]*>::len$")
 SEQ_EMPTY = re.compile(r"^seq::slice::SeqSlice::<[^<>]*>::is_empty$")
 BITLEN = re.compile(r"^bitvec::(slice|vec)::api::<impl bitvec::(slice::BitSlice|vec::BitVec)(<[^>]*>)?>::len$")
